@@ -186,8 +186,17 @@ Definition delrows (t : ltable) (dead : list nat) : option ltable :=
 (* ---------- selection-addressed positions (col[dm] = ...) ---------- *)
 Definition sel_positions (c : lcol) (key : ltable) : option (list nat) := positions_by_id c (ia (l_rowid key)).
 
+(* BaseColumn._setsequencekey: write in order, stop (raise) at the first index the generated range test rejects *)
+Fixpoint write_list_k (len : Z) (l : list Z) (xs : list val) (cells : list val) : list val * bool :=
+  match l, xs with
+  | i :: l', x :: xs' => if k_seqkey_oob i len then (cells, false)
+                         else write_list_k len l' xs' (set_nth (Z.to_nat i) x cells)
+  | _, _ => (cells, true)
+  end.
+
 (* ---------- one L1 step on the operations whose algorithms are id-based ---------- *)
-Inductive lres := LNew (t : ltable) | LUpd (i : nat) (t : ltable) | LErr | LSkip.
+Inductive lres := LNew (t : ltable) | LUpd (i : nat) (t : ltable) | LErr | LErrUpd (i : nat) (t : ltable) | LSkip.
+(* LErrUpd: the operation raised after a partial effect *)
 
 Definition lstep (p : list ltable) (o : op) : lres :=
   match o with
@@ -279,6 +288,43 @@ Definition lstep (p : list ltable) (o : op) : lres :=
               end
           end
       | _, _ => LSkip
+      end
+  | ORename ti old new ident =>
+      (* DataMatrix.rename: the guard chain regenerated from the source decides; the recipe keeps the position *)
+      match nth_error p ti with
+      | None => LSkip
+      | Some t =>
+          let has n := match lookup n (l_names t) with Some _ => true | None => false end in
+          let d := k_rename_decision (String.eqb old new) (has old) (has new) ident in
+          if d =? 0 then LUpd ti t
+          else if d =? 1 then LErr
+          else LUpd ti {| l_fam := l_fam t; l_rowid := l_rowid t;
+                          l_names := map (fun '(n, i) => if String.eqb n old then (new, i) else (n, i)) (l_names t);
+                          l_cols := l_cols t; l_sorted := l_sorted t; l_dflt := l_dflt t |}
+      end
+  | OSetCell ti name (AList l) r =>
+      (* col[[i, j, ...]] = value: sequential writes, each index range-checked by the generated test *)
+      match nth_error p ti with
+      | None => LSkip
+      | Some t =>
+          match lookup name (l_names t) with
+          | None => LErr
+          | Some ci =>
+              match nth_error (l_cols t) ci with
+              | None => LSkip
+              | Some c =>
+                  match rhs_cells (lc_kind c) (List.length l) r with
+                  | Raise _ => LErr
+                  | Ok xs =>
+                      let '(cells, ok) := write_list_k (Z.of_nat (List.length (lc_cells c))) l xs (lc_cells c) in
+                      let t' := {| l_fam := l_fam t; l_rowid := l_rowid t; l_names := l_names t;
+                                   l_cols := set_nth ci {| lc_kind := lc_kind c; lc_rowid := lc_rowid c; lc_cells := cells;
+                                                           lc_owner := lc_owner c; lc_tc := lc_tc c |} (l_cols t);
+                                   l_sorted := l_sorted t; l_dflt := l_dflt t |} in
+                      if ok then LUpd ti t' else LErrUpd ti t'
+                  end
+              end
+          end
       end
   | _ => LSkip
   end.
